@@ -134,6 +134,10 @@ def float_norm(words):
 
 def reparse_cause(msg, text):
     """root cause of 'printed text does not parse': look at the printed module field the error points into"""
+    for ln in text.split("\n\t(export \"")[1:]:
+        # a separate export field whose quoted name is not a well-formed string literal on one line
+        if not re.match(r"([^\"\\\n]|\\[nrtv\\\"]|\\[0-9a-fA-F]{2})*\" \((func|global|memory|table) [^ ()]+\)\)(\n|$)", ln):
+            return "export-name:unescaped"
     m = re.search(r":(\d+):(\d+):", msg)
     line = ""
     if m:
@@ -216,10 +220,15 @@ def run_chunks(ctx, binp, lines, nproc=8, timeout=900):
 
 
 def run(ctx):
+    import time
+    t0 = time.time()
+    timing = {}
     h = ctx.build_harness("c05")
+    timing["build_harness"] = round(time.time() - t0, 1)
     pdef, pomit = extract_align(vlib.REPO)
     ctx.prove(required=REQUIRED)
     model = ctx.build_model("c05")
+    timing["lean"] = round(time.time() - t0, 1)
 
     inputs = gen_inputs(ctx)
     # spread the expensive compiler inputs over the chunks: interleave
@@ -230,6 +239,7 @@ def run(ctx):
     for pos, i in enumerate(order):
         outs[i] = outs_perm[pos]
 
+    timing["harness_run"] = round(time.time() - t0, 1)
     dist = {"streams": {}, "status": {}, "features": {}, "outside_model": {}, "not_assemblable": 0}
     recs = []
     for (label, op, arg, meta), l in zip(inputs, outs):
@@ -343,6 +353,7 @@ def run(ctx):
             if (a["exports"], a["imports"]) != (b["exports"], b["imports"]) and not r["viol"]:
                 viol(r, "node:export-import-lists-differ", "exports/imports %s vs %s" % ((a["exports"], a["imports"]), (b["exports"], b["imports"])))
 
+    timing["oracle_node"] = round(time.time() - t0, 1)
     # ------------------------------------------------------------------ tie with the Lean model
     tie = {"compared": 0, "equal": 0, "attributed_to_violation": 0, "model_parse_of_real_output_ok": 0, "rt_selfcheck_ok": 0}
     if model:
@@ -398,6 +409,8 @@ def run(ctx):
                 ctx.proof["broken"].append({"theorem": "correspondence C05 model print vs printer.Fprint (tokens)",
                                             "why": "%s: token %d: model %r real %r" % (r["label"], j, mt[j - 2:j + 3], r["real_tokens"][j - 2:j + 3])})
 
+    timing["tie"] = round(time.time() - t0, 1)
+    ctx.notes.append("cumulative seconds per stage: %s" % timing)
     nontrivial = set()
     for r in recs:
         if r.get("w1ok"):
